@@ -47,6 +47,13 @@ impl Case {
         }
     }
     fn json_with(&self, codes: &[[u16; 3]]) -> Value {
+        if codes.len() > 4096 {
+            if let Codes::Seeded { stratum, seed, n } = &self.codes {
+                // a real-size frame is stored by its generator parameters, not pixel by pixel
+                return json!({"prop":"C01","cfg":cfg_json(&self.cfg),"storage": if self.u8_storage {"u8"} else {"u16"},
+                    "by_value": self.by_value, "seeded": {"stratum": stratum, "seed": seed.to_string(), "n": n}, "layout": self.layout});
+            }
+        }
         json!({"prop":"C01","cfg":cfg_json(&self.cfg),"storage": if self.u8_storage {"u8"} else {"u16"},
                "by_value": self.by_value, "codes": codes, "layout": if codes.len() == 1 { None } else { self.layout }})
     }
@@ -202,8 +209,53 @@ pub fn check(case: &Case, st: &mut Stats) -> Result<(), Violation> {
     Ok(())
 }
 
+/// real-size frames (see gen::LARGE_SIZES). One job = one size; the configs of a job run one after the
+/// other on the same thread, with the two ranges of each depth adjacent (per-thread caches keyed on part
+/// of the config would show), content from the boundary / extreme / related-neighbour strata.
+fn large_frames(ctx: &Ctx, st: &mut Stats) -> Vec<Violation> {
+    let sizes: Vec<(usize, usize)> = if ctx.light { vec![(256, 128), (257, 255), (521, 511)] } else if ctx.quick() { crate::gen::LARGE_SIZES[..8].to_vec() } else { crate::gen::LARGE_SIZES.to_vec() };
+    let seed0 = ctx.seed;
+    par_sweep(ctx, st, sizes.len() as u64, |lo, hi, st| {
+        for j in lo..hi {
+            let (w, h) = sizes[j as usize];
+            let mut k = 0u64;
+            for (depth, u8s) in [(8u8, true), (16, false), (8, false), (10, false)] {
+                for full in [false, true, false] {
+                    let mc = STD_MC[((j + k) % 7) as usize];
+                    k += 1;
+                    let stratum = [1u8, 5, 0, 3][(k % 4) as usize];
+                    let case = Case {
+                        cfg: cfg(mc, TC::BT1886, CP::BT709, depth, full, (0, 0)),
+                        u8_storage: u8s,
+                        by_value: k % 5 == 0,
+                        codes: Codes::Seeded { stratum, seed: mix64(seed0 ^ (j << 8) ^ k), n: w * h },
+                        layout: Some((h, [(0, 0), ((k % 3) as usize, 0), (0, (k % 2) as usize)])),
+                    };
+                    let mut local = Stats::new();
+                    local.sample_budget = 0;
+                    if let Err(v) = check(&case, &mut local) {
+                        return Some(v);
+                    }
+                    st.evaluations += 1;
+                    st.comparisons += (w * h) as u64;
+                    st.nontrivial_by_construction += 1;
+                    st.class("large_frames", 1);
+                    for (kk, v) in local.maxima {
+                        st.max(&kk, v);
+                    }
+                }
+            }
+        }
+        None
+    })
+}
+
 pub fn run(ctx: &Ctx, st: &mut Stats) -> Vec<Violation> {
     let mut v = run_proptest(ctx, st, "random", ctx.cases(30_000, 3_000_000), strategy, check);
+    if !v.is_empty() {
+        return v;
+    }
+    v.extend(large_frames(ctx, st));
     if !v.is_empty() {
         return v;
     }
@@ -335,15 +387,22 @@ fn deep_sweeps(ctx: &Ctx, st: &mut Stats) -> Vec<Violation> {
 
 pub fn replay(v: &Value) -> Result<(), String> {
     let cfg = cfg_from_json(v.get("cfg").ok_or("cfg")?).ok_or("bad cfg")?;
-    let codes: Vec<[u16; 3]> = serde_json::from_value(v.get("codes").ok_or("codes")?.clone()).map_err(|e| e.to_string())?;
+    let codes = match v.get("seeded") {
+        Some(sd) => Codes::Seeded {
+            stratum: sd.get("stratum").and_then(|x| x.as_u64()).ok_or("stratum")? as u8,
+            seed: sd.get("seed").and_then(|x| x.as_str()).and_then(|x| x.parse().ok()).ok_or("seed")?,
+            n: sd.get("n").and_then(|x| x.as_u64()).ok_or("n")? as usize,
+        },
+        None => Codes::Explicit(serde_json::from_value(v.get("codes").ok_or("codes")?.clone()).map_err(|e| e.to_string())?),
+    };
     let case = Case {
         cfg,
         u8_storage: v.get("storage").and_then(|s| s.as_str()) == Some("u8"),
         by_value: v.get("by_value").and_then(|s| s.as_bool()).unwrap_or(false),
-        codes: Codes::Explicit(codes),
+        codes,
         layout: v.get("layout").and_then(|l| serde_json::from_value(l.clone()).ok()).flatten(),
     };
     check(&case, &mut Stats::new()).map_err(|v| v.message)
 }
 
-pub const RULE: &str = "cases = (matrix in 7 standard, range, depth 8..16, storage, by-ref/by-value, batch of 1..256 code triples from 6 strata: uniform, boundary codes, single-axis sweep, mixed, near-neutral chroma, related neighbours; laid out in 1..4 rows with independent per-plane paddings 0..32) generated by proptest, plus enumerated 8-bit (Y-plane = 65536 triples) and deep sweeps; each pixel compared with the f64 H.273 formula (tol 3e-6); non-trivial = batch containing a pixel whose chroma codes are not both 2^(n-1) (so the matrix matters); distinct = by hash of (config, batch)";
+pub const RULE: &str = "cases = (matrix in 7 standard, range, depth 8..16, storage, by-ref/by-value, batch of 1..256 code triples from 6 strata: uniform, boundary codes, single-axis sweep, mixed, near-neutral chroma, related neighbours; laid out in 1..4 rows with independent per-plane paddings 0..32) generated by proptest, plus real-size frames (32768 .. 2 M pixels, rows up to 131080 wide, pixel counts that are not multiples of 8) in u8/u16 storage at 8/10/16 bit with the two ranges adjacent on one thread, plus enumerated 8-bit (Y-plane = 65536 triples) and deep sweeps; each pixel compared with the f64 H.273 formula (tol 3e-6); non-trivial = batch containing a pixel whose chroma codes are not both 2^(n-1) (so the matrix matters); distinct = by hash of (config, batch)";
